@@ -443,7 +443,10 @@ func c20Corrupt(c *Ctx) {
 			lines := t.tokens()
 			row := 1 + r.IntN(len(lines)-1)
 			var what string
-			switch r.IntN(5) {
+			switch r.IntN(6) {
+			case 5: // the blank between a row label and its first score is missing: a longer label AND one value too few
+				lines[row] = append([]string{lines[row][0] + lines[row][1]}, lines[row][2:]...)
+				what = fmt.Sprintf("row %d: label glued to the first score (%q)", row, lines[row][0])
 			case 0: // drop one value of a row
 				j := 1 + r.IntN(len(lines[row])-1)
 				lines[row] = append(append([]string{}, lines[row][:j]...), lines[row][j+1:]...)
